@@ -77,6 +77,20 @@ extern void mpt_world_fini(MPT_STRUCT(world) *wld)
 	*wld = def_world;
 }
 
+/* replace the content by a copy (or the defaults); unchanged when a string can not be duplicated */
+static int worldAssign(MPT_STRUCT(world) *wld, const MPT_STRUCT(world) *from)
+{
+	MPT_STRUCT(world) tmp;
+	
+	mpt_world_init(&tmp, from);
+	if (from && from->_alias && !tmp._alias) {
+		mpt_world_fini(&tmp);
+		return MPT_ERROR(BadOperation);
+	}
+	mpt_world_fini(wld);
+	*wld = tmp;
+	return 0;
+}
 /*!
  * \ingroup mptPlot
  * \brief set world properties
@@ -104,9 +118,7 @@ extern int mpt_world_set(MPT_STRUCT(world) *wld, const char *name, MPT_INTERFACE
 			if (len && from == wld) {
 				return 0;
 			}
-			mpt_world_fini(wld);
-			mpt_world_init(wld, len ? from : 0);
-			return 0;
+			return worldAssign(wld, len ? from : 0);
 		}
 		if ((len = mpt_string_pset(&wld->_alias, src)) >= 0) {
 			return len;
@@ -138,9 +150,7 @@ extern int mpt_world_set(MPT_STRUCT(world) *wld, const char *name, MPT_INTERFACE
 			if (len && from == wld) {
 				return 0;
 			}
-			mpt_world_fini(wld);
-			mpt_world_init(wld, len ? from : 0);
-			return 0;
+			return worldAssign(wld, len ? from : 0);
 		}
 		return MPT_ERROR(BadType);
 	}
